@@ -45,7 +45,7 @@ func genC06(tier string, seed uint64, idx int) *simkit.Plan {
 	// 0 = scaled block sizes; 1 = real constants, one 10MB row; 2 = real constants, volume around the 10MB row boundary
 	real := 0
 	switch {
-	case idx%128 == 77 || idx%128 == 44: // one odd (fault configuration), one even (fault-free)
+	case idx%32 == 13 || idx%128 == 44: // odd = fault configuration (shard files longer than the 1MB rebuild buffer), even = fault-free
 		real = 2
 	case idx%16 == 5 || idx%16 == 12:
 		real = 1
@@ -104,7 +104,7 @@ func genC06(tier string, seed uint64, idx int) *simkit.Plan {
 	case 1:
 		target = int64(rng.Range(200, 2600)) * 1024 // a few blocks of the first (only) row
 	case 2:
-		target = rowS + []int64{-8, 0, 8, 4096}[rng.Intn(4)]
+		target = rowS + []int64{-8, 0, 8, 4096, 8, 4096, 3<<20 + 8}[rng.Intn(7)]
 	}
 	target -= target % 8
 	p.SetC("target", target)
@@ -199,15 +199,6 @@ func genC06(tier string, seed uint64, idx int) *simkit.Plan {
 	if real != 0 {
 		nl = rng.Range(2, 4)
 	}
-	if real == 2 {
-		// shards longer than the rebuild buffer: one of them ends exactly on a buffer multiple
-		m := int64(1) << uint(rng.Intn(totalShards))
-		t := rng.Intn(totalShards)
-		for m&(1<<uint(t)) != 0 {
-			t = (t + 1) % totalShards
-		}
-		p.Add(simkit.St("lose", rng.Uint64(), "mask", m, "torn", t+1, "cutmode", 1, "cut", 2*rng.Intn(1000)))
-	}
 	for i := 0; i < nl; i++ {
 		k := []int{1, 2, 3, 4, 5, 6, 9}[rng.Pick(3, 3, 3, 5, 2, 1, 1)]
 		tear := rng.Chance(1, 4)
@@ -240,6 +231,16 @@ func genC06(tier string, seed uint64, idx int) *simkit.Plan {
 			miss |= 1 << uint(rng.Intn(totalShards))
 		}
 		p.Add(simkit.St("ecvol", rng.Uint64(), "miss", miss))
+	}
+	if real == 2 {
+		// last, because it ends the run on the unchanged tree (recorded finding): the ordinary rebuilds above must get their turn
+		// shards longer than the rebuild buffer: one of them ends exactly on a buffer multiple
+		m := int64(1) << uint(rng.Intn(totalShards))
+		t := rng.Intn(totalShards)
+		for m&(1<<uint(t)) != 0 {
+			t = (t + 1) % totalShards
+		}
+		p.Add(simkit.St("lose", rng.Uint64(), "mask", m, "torn", t+1, "cutmode", 1, "cut", 2*rng.Intn(1000)))
 	}
 	return p
 }
@@ -705,7 +706,21 @@ func (c *c06) decode(s *simkit.Step) {
 	for _, k := range v.keys {
 		rr := volsim.ReadBlob(st, k, volsim.CookieOf(k))
 		if ok, why := rr.Matches(v.model[k]); !ok {
-			r.Violate("decoded-dat-differs", "decoded-volume-read", "decoded volume: key %d: %s", k, why)
+			key := "decoded-volume-read"
+			// root cause seen so far: the decoded .idx is sorted by key (a copy of the .ecx); volume loading
+			// takes its LAST entry for the last record of the data file and truncates everything behind it
+			var maxKey uint64
+			for lk := range v.live {
+				if lk > maxKey {
+					maxKey = lk
+				}
+			}
+			for _, e := range v.live {
+				if e.Off > v.live[maxKey].Off {
+					key = "decoded-index-sorted-by-key:largest-key-not-last-record"
+				}
+			}
+			r.Violate("decoded-dat-differs", key, "decoded volume: key %d: %s (largest live key %d at offset %d)", k, why, maxKey, v.live[maxKey].Off)
 			return
 		}
 	}
